@@ -157,7 +157,11 @@ impl Directive {
                             context.push_to_last((point, Item::Set(name.clone(), expr.clone())))
                         }
                         Directive::Def => {
-                            context.push_to_last((point, Item::Def(name.clone(), expr.clone())))
+                            if let Expr::Ident(_) = expr {
+                                context.push_to_last((point, Item::Def(name.clone(), expr.clone())))
+                            } else {
+                                bail!("{} isn't a register, {}", expr, point);
+                            }
                         }
                         _ => bail!("unknown argument for {} data, {}", self, point),
                     };
